@@ -15,7 +15,15 @@ RULE = ("engine A: (valid side, metamorphic twin) dyndep templates -- file exist
 
 
 def fams(tier):
-    return [("dyndep twin templates", templates_c11.valid_templates(tier), None, None),
+    import scen
+    valid = templates_c11.valid_templates(tier)
+    # seam S8: the twin templates once more with ninja's Edge / Node objects at descending addresses (the sets that
+    # Plan::DyndepsLoaded walks are ordered by address); at a smaller history depth
+    desc = scen.descending_copies(valid, tags_any=("dyndep",))
+    for sc in desc:
+        sc["depth"] = min(sc["depth"], 4 if tier == "quick" else 5)
+    return [("dyndep twin templates", valid, None, None),
+            ("dyndep twin templates, descending heap order (S8)", desc, None, None),
             ("invalid dyndep files", templates_c11.invalid_templates(tier), None, None)]
 
 
